@@ -64,6 +64,10 @@ CLAIMED["C22"] = dict(engine="logsim", design="§6 C22, §5.5",
    technique=TECH + "scheduler-stepped appenders, two-phase flush function, fake-clock interval flusher and 1-4 subscribers (real LoopProcessLogData parked in its callbacks) over the real LogBuffer; exactly-once / ordering / bounded-delivery oracle over each subscriber's delivered sequence",
    text="Appends with caller, buffer-assigned, racing and client timestamps, rotations by size, by time and by the interval flusher, flushes whose completion lags by a plan-chosen number of generations, and subscribers starting at drawn timestamps (zero, exact event timestamps, +-1 ns around buffer and flush boundaries, future) are interleaved step by step; each subscriber must receive exactly the events later than its start, once, in increasing timestamp order, whether served from the current buffer, sealed buffers or the captured flushed segments, and everything must have arrived after appends stop, flushes complete and fake time passes. The data-race clause is not decided.",
    note="Trusted: the subscriber loop is a line-by-line copy of SubscribeLocalMetadata around the real LoopProcessLogData; the disk is in memory with the file naming / selection of filer_notify.go mirrored; interleaving granularity is whole LogBuffer calls and subscriber callbacks. The aggregated (multi-filer) path is not modelled.")
+CLAIMED["C40"] = dict(engine="cluster", design="§6 C40, §3.4",
+   technique=TECH + "real master and volume servers on a simulated network; every upload/delete HTTP request parked and released per plan with drop / lost response / delay per replica message and a chosen completion order (client-library retries on the fake clock); replica-equality oracle after every operation reported successful",
+   text="Uploads with names and mime types that do and do not trigger client-side compression, pairs, TTL, client timestamps and the manifest flag, overwrites and deletes are sent to the primary of a volume replicated on 2-3 real volume servers; replica requests fail, lose their response or are delayed per plan. After every operation the client saw succeed, every replica is queried over HTTP (status, headers incl. name/mime/pairs/last-modified, decoded body) and gRPC (cookie, stored last-modified, TTL) and all must agree. Stored checksum/compression may differ (the statement compares decoded content). Nothing is demanded for operations reported failed.",
+   note=CLUSTERNOTE)
 
 PLANNED = {}
 
